@@ -306,8 +306,12 @@ fn fields_example(
             Ok(quote!(( #(#field_values ,)* #maybe_phantom )))
         }
         (true, true) => {
-            // no fields
-            Ok(quote!())
+            // no fields; the generated struct is `Foo(PhantomData<..>)` if it has unused type params.
+            if needs_phantom_data {
+                Ok(quote!((::core::marker::PhantomData)))
+            } else {
+                Ok(quote!())
+            }
         }
         (false, false) => {
             // mixed fields
